@@ -175,7 +175,7 @@ static PyObject* scale(PyObject *self, PyObject *args, PyObject *kwrds)
             dscal_(&xc, &dblm1, MAT_BUFD(x) + ind, &xr);
 
         betak = PyList_GetItem(beta, (Py_ssize_t) k);
-        b = PyFloat_AS_DOUBLE(betak);
+        b = PyFloat_AsDouble(betak);
         if (inverse == 'I') b = 1.0 / b;
         for (i = 0; i < xc; i++)
             dscal_(&m, &b, MAT_BUFD(x) + ind + i*xr, &int1);
@@ -1061,6 +1061,7 @@ static PyObject* max_step(PyObject *self, PyObject *args, PyObject *kwrds)
 
     if (!PyArg_ParseTupleAndKeywords(args, kwrds, "OO|iO", kwlist, &x,
         &dims, &ind, &sigma)) return NULL;
+    if ((PyObject *) sigma == Py_None) sigma = NULL;
 
     O = PyDict_GetItemString(dims, "l");
 #if PY_MAJOR_VERSION >= 3
